@@ -94,10 +94,15 @@ def prune(prefix, keep):
     """drop old build directories (disk), but never one that was used in the last 30 minutes (it may be in use by a
     concurrent check against another tree)"""
     keep = max(keep, 3)
-    ds = sorted(glob.glob(os.path.join(BUILD, prefix + '-*')), key=os.path.getmtime, reverse=True)
+    def mtime(d):
+        try:
+            return os.path.getmtime(d)
+        except OSError:   # removed meanwhile by a concurrent check that pruned the same prefix
+            return 0.0
+    ds = sorted(((mtime(d), d) for d in glob.glob(os.path.join(BUILD, prefix + '-*'))), reverse=True)
     now = time.time()
-    for d in ds[keep:]:
-        if now - os.path.getmtime(d) > 1800:
+    for m, d in ds[keep:]:
+        if now - m > 1800:
             shutil.rmtree(d, ignore_errors=True)
 
 
